@@ -25,3 +25,31 @@ pub proof fn count_lhs_cons(pr: Seq<Pr>, n: Seq<char>)
     ensures count_lhs(pr, n) == (if pr[0].lhs() == n { 1nat } else { 0nat }) + count_lhs(pr.skip(1), n)
 { }
 
+
+/// counting left-hand sides is compositional over removing one production (wherever it sits)
+pub proof fn count_lhs_remove(pr: Seq<Pr>, k: int, n: Seq<char>)
+    requires 0 <= k < pr.len()
+    ensures count_lhs(pr, n) == count_lhs(pr.remove(k), n) + (if pr[k].lhs() == n { 1nat } else { 0nat })
+    decreases pr.len()
+{
+    if k == 0 {
+        assert(pr.remove(0) =~= pr.skip(1));
+    } else {
+        count_lhs_remove(pr.skip(1), k - 1, n);
+        assert(pr.remove(k).skip(1) =~= pr.skip(1).remove(k - 1));
+        assert(pr.remove(k)[0] == pr[0]);
+        assert(pr.skip(1)[k - 1] == pr[k]);
+    }
+}
+/// an occurrence on a right-hand side is either in the k-th production or in one of the others
+pub proof fn occurs_remove(pr: Seq<Pr>, k: int, n: Seq<char>)
+    requires 0 <= k < pr.len(), occurs_on_rhs(pr, n)
+    ensures (exists|j: int| 0 <= j < pr[k].rhs().len() && nt_occurs(#[trigger] pr[k].rhs()[j], n)) || occurs_on_rhs(pr.remove(k), n)
+{
+    let (i, j) = choose|i: int, j: int| 0 <= i < pr.len() && 0 <= j < pr[i].rhs().len() && nt_occurs(#[trigger] pr[i].rhs()[j], n);
+    if i != k {
+        let q = if i < k { i } else { i - 1 };
+        assert(pr.remove(k)[q] == pr[i]);
+        assert(nt_occurs(pr.remove(k)[q].rhs()[j], n));
+    }
+}
